@@ -163,6 +163,14 @@ def _canonical_view(prog, f):
     from ..inline import inline_view
     v = inline_view(prog, f, allow_loops=True)
     node = _CanonCalls().visit(copy.deepcopy(v.node))
+
+    class _Lit(ast.NodeTransformer):
+        """a module-level literal constant read in the operator (normal form N2) is written as the literal"""
+        def visit_Name(self, n):
+            if isinstance(n.ctx, ast.Load) and hasattr(n, '_xrsa_const') and isinstance(n._xrsa_const, (int, float, str, bool, type(None))):
+                return ast.copy_location(ast.Constant(value=n._xrsa_const), n)
+            return n
+    node = _Lit().visit(node)
     node = _normalise_cell_walk(node)
     ast.fix_missing_locations(node)
     g = Func(f.module, node, f.parent)
